@@ -143,12 +143,15 @@ class Runner:
         names = None
         d = os.path.join(core.HARNESS, "inpkg", self.cfg.inpkg)
         all_files = sorted(f for f in os.listdir(d) if f.endswith(".go"))
-        names = [f for f in all_files if (self.cfg.files is None or f in self.cfg.files or f in self.cfg.wb_files)]
+        files = variant.get("files", self.cfg.files)
+        names = [f for f in all_files if (files is None or f in files or f in self.cfg.wb_files)]
         if not wb:
             names = [f for f in names if f not in self.cfg.wb_files]
         m.update(core.inpkg_overlay(self.cfg.pkg, names, self.cfg.inpkg))
         m.update(self.cfg.extra_overlay())
         m.update(variant.get("overlay", {}))
+        if "overlay_fn" in variant:
+            m.update(variant["overlay_fn"](self.work))
         return core.write_overlay(self.work, m)
 
     def harness(self, outdir, n, variant, replay=None, seed=None):
